@@ -7,7 +7,7 @@ import core
 import gen
 
 PID = 'C18'
-MODULES = ['FFVerif.Proofs.C18']
+MODULES = ['FFVerif.Proofs.C18', 'FFVerif.Proofs.C18Areas']
 EC1 = {0: (0.003, 1), 1: (0.01, 1), 2: (0.05, 2), 3: (0.3, 5), 4: (1.0, 10)}
 IEC = {1: (1, 8.1), 2: (0.8, 2.7), 3: (0.5, 0.66)}
 
